@@ -50,6 +50,16 @@ Definition cast_sem (c : cty) (v : Z) : option Z :=
   | Cunknown => None
   end.
 
+(* reviewed hand models (mir-gen-x86_64.c get_ext_code, mir.c make_one_ret / simplify_func, mir-interp.c call() and
+   interp() as read on 2026-10-01): used by the generated file only for a part the translator does not recognise *)
+Definition reviewed_ext (t : ity) : extc :=
+  match t with I8 => XEXT8 | U8 => XUEXT8 | I16 => XEXT16 | U16 => XUEXT16 | I32 => XEXT32 | U32 => XUEXT32 | _ => XNONE end.
+Definition reviewed_call_cast (t : ity) : cty :=
+  match t with I8 => Ci8 | U8 => Cu8 | I16 => Ci16 | U16 => Cu16 | I32 => Ci32 | U32 => Cu32 | I64 => Ci64 | U64 | Pt => Cu64 end.
+Definition reviewed_entry (t : ity) : cty * cty :=
+  match t with I8 => (Ci8, Ci32) | U8 => (Cu8, Cu32) | I16 => (Ci16, Ci32) | U16 => (Cu16, Cu32)
+             | I32 => (Cnone, Ci32) | U32 => (Cnone, Cu32) | I64 => (Cnone, Ci64) | U64 | Pt => (Cnone, Cu64) end.
+
 (* interp(): "arg_vals[i].i = (cast) va_arg (va, vat)" -- read as type vat, convert to cast *)
 Definition entry_sem (cv : cty * cty) (v : Z) : option Z :=
   match cast_sem (snd cv) v with
